@@ -231,6 +231,44 @@ pub fn iter_sees_unlinked_tree_insert() -> ConcCase {
     }
 }
 
+/// C01 (seeded change `C01-removed-tree-node-clears-next`): a reader that walks a tree bin's list
+/// can stand on the very node a writer removes; it relies on the removed node keeping its `next`
+/// (a dead node's `next` is frozen and leads back into the list), otherwise it falls off the end
+/// and misses keys that were present all the time.
+///
+/// all-equal hashes, keys 1..=12 in one tree bin (list order 12,11,10,1,2,…,9). W1 (`rm 3`) holds
+/// the write lock while R (`get 9`) walks linearly up to key 5 and is about to load `5.next`; W1
+/// finishes; W2 (`rm 5`) removes the node R stands on, completely; R resumes and must find 9.
+pub fn reader_on_removed_tree_node() -> ConcCase {
+    let mut origin = 1300u32;
+    let mut fresh = || {
+        origin += 1;
+        origin
+    };
+    let prefill: Vec<(u32, u64, u32)> = (1..=12u32).map(|k| (k, 0, fresh())).collect();
+    let script = vec![
+        ScriptStep { tid: 0, until: Until::Done { kind: Kind::Cas, what: "lock_state", rel: Rel::Any, count: 1 } },
+        // R: linear walk over 12,11,10,1,2,3,4,5: the lock word has been read at key 5 …
+        ScriptStep { tid: 1, until: Until::Done { kind: Kind::Load, what: "lock_state", rel: Rel::Any, count: 8 } },
+        // … and the next access is the load of `5.next`
+        ScriptStep { tid: 1, until: Until::Pending { kind: Kind::Load, what: "BinEntry", rel: Rel::Any } },
+        ScriptStep { tid: 0, until: Until::Finished },
+        ScriptStep { tid: 2, until: Until::Finished },
+        ScriptStep { tid: 1, until: Until::Finished },
+    ];
+    ConcCase {
+        id: 5,
+        seed: 0xC01,
+        hash_class: "scenario:reader-on-removed-tree-node",
+        hashes: vec![0; 64],
+        cap: 64,
+        prefill,
+        programs: vec![vec![COp::Rm(3)], vec![COp::Get(9)], vec![COp::Rm(5)]],
+        policy: Policy::Script(script),
+        pin: false,
+    }
+}
+
 pub fn all() -> Vec<(&'static str, ConcCase)> {
-    vec![("stale-helper", stale_helper()), ("clear-in-transfer-window", clear_in_transfer_window()), ("null-first-iter", null_first_iter()), ("tree-stale-linear-reader", tree_stale_linear_reader()), ("iter-sees-unlinked-tree-insert", iter_sees_unlinked_tree_insert())]
+    vec![("stale-helper", stale_helper()), ("clear-in-transfer-window", clear_in_transfer_window()), ("null-first-iter", null_first_iter()), ("tree-stale-linear-reader", tree_stale_linear_reader()), ("iter-sees-unlinked-tree-insert", iter_sees_unlinked_tree_insert()), ("reader-on-removed-tree-node", reader_on_removed_tree_node())]
 }
